@@ -199,6 +199,7 @@ var panicClasses = []struct{ sub, class string }{
 	{"non-relation component", "obsNonRelation"},
 	{"is not a relation component", "notRelation"},
 	{"was not specified in the filter or map", "relNotInMask"},
+	{"is not among the added components", "relNotInMask"},
 	{"entity has no component of type", "noRelComponent"},
 	{"unbalanced unlock", "unbalancedUnlock"},
 	{"run out of the maximum of", "outOfLocks"},
